@@ -600,6 +600,11 @@ def length(ex, v, st):
         for a in C.map_size_axioms(v):
             st.assume(a)
         return Val(TInt, C.map_size(v))
+    if isinstance(ty, TSet):
+        # cardinality: uninterpreted, non-negative (under-specified on purpose)
+        f = z3.Function('size!%s' % C._san(ty.key), ty.sort(), z3.IntSort())
+        st.assume(f(v.term) >= 0)
+        return Val(TInt, f(v.term))
     if ty == TStr:
         if v.has_py(): return lift(len(v.py))
         f = z3.Function('str!len', C.StrSort, z3.IntSort())
@@ -663,6 +668,13 @@ def _b_str(ex, node, st):
     if v.ty == TStr: return v
     if v.has_py() and not isinstance(v, (PyTuple, PyDict)):
         return lift(str(v.py))
+    if isinstance(v.ty, TOpt) and v.ty.elem == TStr:
+        return Val(TStr, z3.If(v.ty.is_none(v.term), C.str_lit('None'),
+                               v.ty.val(v.term)))
+    if isinstance(v.ty, TOpt):
+        inner = ex.str_fn('str', [Val(v.ty.elem, v.ty.val(v.term))])
+        return Val(TStr, z3.If(v.ty.is_none(v.term), C.str_lit('None'),
+                               inner.term))
     return ex.str_fn('str', [v])
 
 
@@ -1037,6 +1049,25 @@ class KeysView(Val):
 # module functions
 #
 def _m_floor(ex, node, st):
+    arg = node.args[0]
+    if isinstance(arg, ast.BinOp) and isinstance(arg.op, ast.Div):
+        # floor(a / b): for integers this is exactly integer floor division
+        # (under A1, reals); for reals the defining sandwich is stated
+        a = ex.num(st, ex.ev(arg.left, st))
+        b = ex.num(st, ex.ev(arg.right, st))
+        ex.fail(st, coerce(b, TReal).term == 0, 'ZeroDivisionError')
+        if a.ty == TInt and b.ty == TInt:
+            return Val(TInt, C.floordiv_int(a.term, b.term))
+        q = fresh(TInt, 'floor')
+        ar, br = coerce(a, TReal).term, coerce(b, TReal).term
+        st.assume(z3.Implies(br > 0, z3.And(z3.ToReal(q.term) * br <= ar,
+                                            ar < (z3.ToReal(q.term) + 1) * br)))
+        st.assume(z3.Implies(br < 0, z3.And(z3.ToReal(q.term) * br >= ar,
+                                            ar > (z3.ToReal(q.term) + 1) * br)))
+        st.assume(z3.Implies(z3.And(br > 0, ar >= 0), q.term >= 0))
+        st.assume(z3.Implies(z3.And(br > 0, ar >= br), q.term >= 1))
+        st.assume(z3.Implies(z3.And(br > 0, ar < br, ar >= 0), q.term == 0))
+        return q
     v = ex.num(st, pos_args(ex, node, st)[0])
     if v.ty == TInt: return v
     return Val(TInt, z3.ToInt(v.term))
